@@ -4816,6 +4816,20 @@ int main(int argc, char** argv) {
                 }
             };
 
+            // A streamed payload is only acceptable if it hashes to the manifest's content hash; without a
+            // decodable manifest there is nothing to verify against, so nothing is written.
+            auto payload_matches_manifest = [&](const ephemeralnet::daemon::ControlResponse& response) {
+                if (!response.has_payload) {
+                    return true;
+                }
+                if (!decoded_manifest.has_value()) {
+                    return false;
+                }
+                const auto digest = ephemeralnet::crypto::Sha256::digest(
+                    std::span<const std::uint8_t>(response.payload.data(), response.payload.size()));
+                return digest == decoded_manifest->chunk_hash;
+            };
+
             auto perform_fetch_request = [&](ephemeralnet::daemon::ControlClient& target_client,
                                             ephemeralnet::daemon::ControlFields request_fields,
                                             const std::string& progress_label,
@@ -5095,6 +5109,10 @@ int main(int argc, char** argv) {
                         attempt_log.push_back({friendly_label, reason});
                         return false;
                     }
+                    if (!payload_matches_manifest(*response)) {
+                        attempt_log.push_back({friendly_label, "Payload does not match the manifest hash"});
+                        return false;
+                    }
 
                     finalize_fetch(*response);
                     if (from_fallback) {
@@ -5246,6 +5264,11 @@ int main(int argc, char** argv) {
             std::string local_error;
             const auto local_response = perform_fetch_request(client, base_fields, "Downloading", &local_error);
             if (local_response && local_response->success) {
+                if (!payload_matches_manifest(*local_response)) {
+                    throw_cli_error("E_FETCH_HASH_MISMATCH",
+                                    "Payload returned by the daemon does not match the manifest hash",
+                                    "Nothing was written; verify the daemon at --control-host/--control-port.");
+                }
                 finalize_fetch(*local_response);
                 print_daemon_hint(*local_response);
                 return 0;
